@@ -49,8 +49,8 @@ def revives_by_design(x):
             return "PRange.end/step is a pattern"
         if n.cls == "PSubsequence" and any(is_pat(v) for v in a[1:]):
             return "PSubsequence.offset/length is a pattern"
-        if n.cls == "PArrayIndex" and isinstance(a[0], list) and any(is_pat(v) for v in a[0]):
-            return "PArrayIndex over a list containing patterns"
+        if n.cls == "PArrayIndex" and isinstance(a[0], list) and any(is_pat(v) for v in a[0]) and len(a) > 1 and is_pat(a[1]):
+            return "PArrayIndex over a list containing patterns, with a pattern index"     # known finding C09-parrayindex-revives: check_arrayindex_revival
         if n.cls == "PDictKey" and len(a) > 1 and is_pat(a[1]):
             return "PDictKey.key is a pattern"
     return None
@@ -787,6 +787,84 @@ def check_dags(run, gen):
 model_exprs_by_src = {}
 
 
+# ==========================================================================================================
+# PArrayIndex stratum: a literal list with PATTERN items.  With a scalar index the class is sticky (theorem
+# C09_more_sticky, GP_arrayindex_fixed) and is judged like every other class.  With a PATTERN index it yields values
+# again after a StopIteration - the StopIteration of the selected item leaks out, the next index selects a live one:
+# known finding C09-parrayindex-revives (findings/C09-parrayindex-revives.md; the model transcribes the code,
+# Props/C09More.v C09_more_arrayindex_revives).  A revival is attributed to the known finding only if it DISAPPEARS
+# when the proposed repair is installed (harness/impl/c09_repaired_impl.py); anything else is an ordinary violation.
+# ==========================================================================================================
+def arrayindex_expr(rng, gen, pattern_index):
+    n = rng.randint(2, 4)
+    xs = []
+    for _ in range(n):
+        xs.append(gen.mark(E("PSequence", gen.numlist(1, 4, allow_none=False), rng.randint(1, 2)), True)
+                  if rng.random() < 0.75 else gen.num(allow_none=False))
+    if not any(is_pat(x) for x in xs):
+        xs[0] = gen.mark(E("PSequence", gen.numlist(1, 3, allow_none=False), 1), True)
+    idx = gen.mark(E("PSequence", [rng.randint(0, n - 1) for _ in range(rng.randint(3, 8))], rng.randint(1, 2)), True) \
+        if pattern_index else rng.randint(0, n - 1)
+    e = gen.mark(E("PArrayIndex", xs, idx), True)
+    w = rng.random()
+    if w < 0.15:
+        e = gen.mark(E("PAdd", e, rng.randint(0, 3)), True)
+    elif w < 0.25:
+        e = gen.mark(E("PStutter", e, rng.randint(1, 2)), True)
+    return e
+
+
+def check_arrayindex_revival(run, gen):
+    rng = run.rng
+    cases = [Case(arrayindex_expr(rng, gen, i % 4 != 0), [("next", 0)] * REFN, "sticky-arrayindex")
+             for i in range(900 if run.tier == "thorough" else 90)]
+    run_impl(run, cases)
+    reviving = []
+    for c in cases:
+        run.count(); run.dist("stream.sticky-arrayindex")
+        if c.status:
+            run.discard("impl-" + c.status); continue
+        run.cov["oracle_evaluations"] += len(c.obs)
+        stops = [i for i, o in enumerate(c.obs[1:]) if o == "stop"]
+        if stops and stops[0] > 0:
+            run.nontrivial("sticky-arrayindex " + to_source(c.expr))
+        if judge_sticky(c.obs) is not None:
+            reviving.append(c)
+    repaired = [Case(c.expr, c.ops, "repaired") for c in reviving]
+    run_impl(run, repaired, shards=4, script="c09_repaired_impl")
+    known = other = 0
+    for c, rc in sorted(zip(reviving, repaired), key=lambda p: size(p[0].expr)):
+        d = judge_sticky(c.obs)
+        gone = (not rc.status) and judge_sticky(rc.obs) is None
+        if gone:
+            known += 1
+            sig = {"kind": "sticky", "via": "arrayindex-pattern-items-pattern-index", "class": root_cls(c.expr)}
+        else:
+            other += 1
+            sig = {"kind": "sticky", "class": root_cls(c.expr), "after": "raise" if d["observed"].startswith("raise") else "value",
+                   "stratum": "arrayindex"}
+        if (known if gone else other) > 3:
+            continue
+        run.violation(sig, {
+            "case": {"expr": to_source(c.expr), "expr_json": to_json(c.expr), "ops": [list(o) for o in c.ops]},
+            "expected": "StopIteration on every next() after call %d (the first StopIteration)" % d["first_stop"],
+            "observed": "call %d: %s" % (d["index"], d["observed"]), "observed_outputs": c.obs_pretty(),
+            "with_repair_findings_C09_parrayindex_revives": "stays exhausted" if gone else "still revives",
+            "python": replay_snippet(c.expr, c.ops[:d["index"] + 1])})
+    run_model(run, cases)
+    for c in cases:
+        if c.verdict == "agree":
+            run.cov["traces_validated_against_impl"] += 1
+    bad = [c for c in cases if c.verdict == "disagree"]
+    if bad:
+        small = shrink(run, bad[0], rounds=4)
+        run.violation({"kind": "correspondence", "class": root_cls(small.expr), "stratum": "arrayindex"}, {
+            "broken": "correspondence Pat/Step.v (PArrayIndex over a literal list) vs the implementation: C09_more_arrayindex_revives / C09_more_sticky no longer describe this code",
+            "case": {"expr": to_source(small.expr), "expr_json": to_json(small.expr), "ops": [list(o) for o in small.ops]},
+            "observed": small.obs_pretty(), "model": model_trace(run, small), "python": replay_snippet(small.expr, small.ops)}, found_input=False)
+    run.cov["arrayindex_stratum"] = {"cases": len(cases), "reviving": len(reviving), "attributed_to_C09_parrayindex_revives": known, "other": other}
+
+
 def check(run):
     rng = run.rng
     thorough = run.tier == "thorough"
@@ -888,6 +966,7 @@ def check(run):
 
     # ---- pattern graphs with shared sub-pattern objects: copies and helpers (oracle + Pat/Dag.v)
     check_dags(run, gen)
+    check_arrayindex_revival(run, gen)
 
     # ---- helpers and copies against repeated next() on a fresh instance
     def judge_script(c):
